@@ -1,9 +1,21 @@
 import PyamgV.Driver.Util
-/-! Driver ops of extension task E22 (op names prefixed `ext_`). -/
+import PyamgV.Driver.Relax
+import PyamgV.Model.ExtSmoothers
+/-! Driver ops of extension task E22 (op names prefixed `ext_`).
+`ext_poly n ap aj ax coefficients iterations b x` / `ext_cpoly …` (Gaussian rationals): the model
+`ExtSm.polynomial` of `relaxation.polynomial`; reply `error` when the model rejects (empty coefficient list). -/
 namespace PyamgV.Drv.ExtE22
-open PyamgV PyamgV.Drv
+open PyamgV PyamgV.Drv PyamgV.Drv.Relax
 
 def handle : List String → Option String
+  | ["ext_poly", n, ap, aj, ax, cs, iters, b, x] =>
+    some <| match ExtSm.polynomial (mkR n ap aj ax) (parseRats cs).toList (nat iters) (parseRats b) (parseRats x) with
+      | some y => showRats y
+      | none => "error"
+  | ["ext_cpoly", n, ap, aj, ax, cs, iters, b, x] =>
+    some <| match ExtSm.polynomial (mkC n ap aj ax) (parseCRats cs).toList (nat iters) (parseCRats b) (parseCRats x) with
+      | some y => showCRats y
+      | none => "error"
   | _ => none
 
 end PyamgV.Drv.ExtE22
